@@ -23,6 +23,8 @@
 
 #include <stdio.h>
 
+#include <inttypes.h>
+
 #include "cmb_logger.h"
 #include "cmb_wtdsummary.h"
 
@@ -206,6 +208,38 @@ void cmb_wtdsummary_print(const struct cmb_wtdsummary *wsp,
     cmb_assert_release(wsp != NULL);
     cmb_assert_release(((struct cmb_datasummary *)wsp)->cookie == CMI_INITIALIZED);
 
-    cmb_datasummary_print((struct cmb_datasummary *)wsp, fp, lead_ins);
+    /* Same layout as cmb_datasummary_print, but with the weighted statistics */
+    const struct cmb_datasummary *dsp = (const struct cmb_datasummary *)wsp;
+    int r = fprintf(fp, "%s%8" PRIu64, ((lead_ins)? "N ": ""), dsp->count);
+    cmb_assert_release(r > 0);
+    if (dsp->count > 0u) {
+        r = fprintf(fp, "%s%#8.4g", ((lead_ins) ? "  Mean " : "\t"),
+                    cmb_wtdsummary_mean(wsp));
+        cmb_assert_release(r > 0);
+    }
+
+    if (dsp->count > 1u) {
+        r = fprintf(fp, "%s%#8.4g", ((lead_ins) ? "  StdDev " : "\t"),
+                    cmb_wtdsummary_stddev(wsp));
+        cmb_assert_release(r > 0);
+        r = fprintf(fp, "%s%#8.4g", ((lead_ins) ? "  Variance " : "\t"),
+                    cmb_wtdsummary_variance(wsp));
+        cmb_assert_release(r > 0);
+    }
+
+    if (dsp->count > 2u) {
+        r = fprintf(fp, "%s%#8.4g", ((lead_ins) ? "  Skewness " : "\t"),
+                    cmb_wtdsummary_skewness(wsp));
+        cmb_assert_release(r > 0);
+    }
+
+    if (dsp->count > 3u) {
+        r = fprintf(fp, "%s%#8.4g", ((lead_ins) ? "  Kurtosis " : "\t"),
+                    cmb_wtdsummary_kurtosis(wsp));
+        cmb_assert_release(r > 0);
+    }
+
+    r = fprintf(fp, "\n");
+    cmb_assert_release(r > 0);
 }
 
